@@ -291,6 +291,9 @@ func (c *Ctx) Finish(seed int) int {
 	if len(c.Lemmas) > 0 {
 		cov["lemmas_used"] = c.Lemmas
 	}
+	if len(c.P.NormalizeLog) > 0 {
+		cov["normalisation"] = c.P.NormalizeLog
+	}
 	for k, v := range c.Extra {
 		cov[k] = v
 	}
